@@ -4,5 +4,1026 @@
 import Theo.Spec.VMSpec
 
 namespace Theo
+namespace InvB
 
+/-! ### `step` as fetch + execute -/
+
+/-- the body of `step` after the fetch -/
+def execI (i : Instr) (vm : VM) : Except Fault (VM × Bool) :=
+  match i with
+  | .potBreak => pure ({ vm with ip := vm.ip + 1 }, vm.stepping)
+  | .brk => pure ({ vm with ip := vm.ip + 1 }, true)
+  | .halt => pure (vm, true)
+  | .add t s c =>
+    match vm.stack with
+    | [] => .error .stackUnderflow
+    | a :: _ => do
+      let v ← rd vm.data (a.dataStart + s)
+      let d ← wr vm.data (a.dataStart + t) (addClamp v c)
+      pure ({ vm with data := d, ip := vm.ip + 1 }, false)
+  | .test t x y =>
+    match vm.stack with
+    | [] => .error .stackUnderflow
+    | a :: _ => do
+      let v1 ← rd vm.data (a.dataStart + x)
+      let v2 ← rd vm.data (a.dataStart + y)
+      let d ← wr vm.data (a.dataStart + t) (if v1 = v2 then 0 else 1)
+      pure ({ vm with data := d, ip := vm.ip + 1 }, false)
+  | .const t c =>
+    match vm.stack with
+    | [] => .error .stackUnderflow
+    | a :: _ => do
+      let d ← wr vm.data (a.dataStart + t) c
+      pure ({ vm with data := d, ip := vm.ip + 1 }, false)
+  | .jmp off => pure ({ vm with ip := vm.ip + off }, false)
+  | .jmpc off s =>
+    match vm.stack with
+    | [] => .error .stackUnderflow
+    | a :: _ => do
+      let v ← rd vm.data (a.dataStart + s)
+      pure ({ vm with ip := if v = 0 then vm.ip + off else vm.ip + 1 }, false)
+  | .prepare cnt idx tgt =>
+    pure ({ vm with data := vm.data ++ List.replicate cnt.toNat 0,
+                    stack := ⟨vm.data.length, cnt, tgt, -1, idx⟩ :: vm.stack,
+                    ip := vm.ip + 1 }, false)
+  | .arg t s =>
+    match vm.stack with
+    | a :: b :: _ => do
+      let v ← rd vm.data (b.dataStart + s)
+      let d ← wr vm.data (a.dataStart + t) v
+      pure ({ vm with data := d, ip := vm.ip + 1 }, false)
+    | _ => .error .stackUnderflow
+  | .exec entry =>
+    match vm.stack with
+    | [] => .error .stackUnderflow
+    | a :: rest =>
+      pure ({ vm with stack := { a with retAddr := vm.ip + 1 } :: rest, ip := entry }, false)
+  | .ret s =>
+    match vm.stack with
+    | a :: b :: rest => do
+      let v ← rd vm.data (a.dataStart + s)
+      let d ← wr vm.data (b.dataStart + a.retTarget) v
+      pure ({ vm with data := d.take a.dataStart, stack := b :: rest, ip := a.retAddr }, false)
+    | _ => .error .stackUnderflow
+
+theorem step_eq (vm : VM) : step vm = (fetch vm.code vm.ip).bind (fun i => execI i vm) := by
+  rfl
+
+theorem step_ok {vm vm' : VM} {r : Bool} (h : step vm = .ok (vm', r)) :
+    ∃ i, fetch vm.code vm.ip = .ok i ∧ execI i vm = .ok (vm', r) := by
+  rw [step_eq] at h
+  cases hf : fetch vm.code vm.ip with
+  | error e => rw [hf] at h; cases h
+  | ok i => rw [hf] at h; exact ⟨i, rfl, h⟩
+
+/-- `step` changes neither the code nor the debugger state -/
+theorem execI_frame {i : Instr} {vm vm' : VM} {r : Bool} (h : execI i vm = .ok (vm', r)) :
+    vm'.code = vm.code ∧ vm'.enabled = vm.enabled ∧ vm'.stepping = vm.stepping := by
+  cases i <;> simp only [execI, bind, Except.bind, pure, Except.pure] at h
+  all_goals (repeat' split at h)
+  all_goals (cases h; try exact ⟨rfl, rfl, rfl⟩)
+
+theorem execI_flag {i : Instr} {vm vm' : VM} {r : Bool} (h : execI i vm = .ok (vm', r)) :
+    r = true ↔ i = .halt ∨ i = .brk ∨ (i = .potBreak ∧ vm.stepping = true) := by
+  cases i <;> simp only [execI, bind, Except.bind, pure, Except.pure] at h
+  all_goals (repeat' split at h)
+  all_goals (cases h; try simp)
+
+/-! ### the computation does not see the break opcodes -/
+
+/-- the machine on which `coreStep` runs -/
+def blank (code : List Instr) (c : Core) : VM :=
+  { stepping := false, ip := c.ip, code := code, data := c.data, stack := c.stack, enabled := [] }
+
+theorem coreStep_eq (p : Program) (c : Core) :
+    coreStep p c = (step (blank p.code c)).map (fun r => r.1.core) := rfl
+
+theorem exc_map_bind {ε α β γ} (x : Except ε α) (f : α → Except ε β) (g : β → γ) :
+    (x.bind f).map g = x.bind (fun a => (f a).map g) := by
+  cases x <;> rfl
+
+theorem exc_map_ok {ε α β} (a : α) (g : α → β) : (Except.ok a : Except ε α).map g = .ok (g a) := rfl
+
+theorem exc_map_error {ε α β} (e : ε) (g : α → β) :
+    (Except.error e : Except ε α).map g = .error e := rfl
+
+theorem execI_core (i : Instr) (vm : VM) (code : List Instr) :
+    (execI i.erase (blank code vm.core)).map (fun r => r.1.core) =
+      (execI i vm).map (fun r => r.1.core) := by
+  cases i <;> rcases hs : vm.stack with _ | ⟨a, _ | ⟨b, rest⟩⟩ <;>
+    simp [execI, Instr.erase, blank, VM.core, hs, exc_map_bind, exc_map_ok, exc_map_error,
+      bind, pure, Except.pure]
+
+theorem fetch_map (f : Instr → Instr) (code : List Instr) (ip : Int) :
+    fetch (code.map f) ip = (fetch code ip).map f := by
+  unfold fetch
+  split
+  · rfl
+  · rw [List.getElem?_map]
+    cases code[ip.toNat]? <;> rfl
+
+theorem fetch_ok {code : List Instr} {ip : Int} {i : Instr} (h : fetch code ip = .ok i) :
+    0 ≤ ip ∧ code[ip.toNat]? = some i := by
+  unfold fetch at h
+  split at h
+  · cases h
+  · split at h
+    · cases h; refine ⟨by omega, ?_⟩; assumption
+    · cases h
+
+theorem fetch_of_get {code : List Instr} {ip : Int} {i : Instr} (h0 : 0 ≤ ip)
+    (h : code[ip.toNat]? = some i) : fetch code ip = .ok i := by
+  unfold fetch
+  rw [if_neg (by omega), h]
+
+theorem erase_ne_brk (i : Instr) : i.erase ≠ .brk := by
+  cases i <;> simp [Instr.erase]
+
+theorem erase_eq_halt {i : Instr} : i.erase = .halt ↔ i = .halt := by
+  cases i <;> simp [Instr.erase]
+
+theorem erase_eq_potBreak {i : Instr} : i.erase = .potBreak ↔ i = .brk ∨ i = .potBreak := by
+  cases i <;> simp [Instr.erase]
+
+theorem erase_of_ne_brk {i : Instr} (h : i ≠ .brk) : i.erase = i := by
+  cases i <;> simp [Instr.erase] at h ⊢
+
+/-- the live code is the loaded code up to the break opcodes -/
+def CodeInv (p : Program) (code : List Instr) : Prop := code.map Instr.erase = p.code
+
+theorem CodeInv.init (p : Program) (hs : SitesOK p) : CodeInv p p.code := by
+  unfold CodeInv
+  have h : ∀ l : List Instr, Instr.brk ∉ l → l.map Instr.erase = l := by
+    intro l
+    induction l with
+    | nil => intro _; rfl
+    | cons x xs ih =>
+      intro hx
+      simp only [List.mem_cons, not_or] at hx
+      rw [List.map_cons, ih hx.2, erase_of_ne_brk (Ne.symm hx.1)]
+  exact h _ hs.2
+
+theorem CodeInv.fetch_eq {p : Program} {code : List Instr} (hc : CodeInv p code) (ip : Int) :
+    fetch p.code ip = (fetch code ip).map Instr.erase := by
+  rw [← hc, fetch_map]
+
+theorem CodeInv.get {p : Program} {code : List Instr} (hc : CodeInv p code) (k : Nat) :
+    p.code[k]? = (code[k]?).map Instr.erase := by
+  rw [← hc, List.getElem?_map]
+
+theorem CodeInv.length {p : Program} {code : List Instr} (hc : CodeInv p code) :
+    code.length = p.code.length := by
+  rw [← hc, List.length_map]
+
+/-- central lemma: a live step is a step of the uninterrupted computation -/
+theorem step_core {p : Program} {vm vm' : VM} {r : Bool} (hc : CodeInv p vm.code)
+    (h : step vm = .ok (vm', r)) : coreStep p vm.core = .ok vm'.core := by
+  obtain ⟨i, hf, he⟩ := step_ok h
+  rw [coreStep_eq, step_eq]
+  have : fetch (blank p.code vm.core).code (blank p.code vm.core).ip = .ok i.erase := by
+    show fetch p.code vm.ip = _
+    rw [hc.fetch_eq, hf]; rfl
+  rw [this]
+  show (execI i.erase (blank p.code vm.core)).map _ = _
+  rw [execI_core, he]; rfl
+
+theorem step_frame {vm vm' : VM} {r : Bool} (h : step vm = .ok (vm', r)) :
+    vm'.code = vm.code ∧ vm'.enabled = vm.enabled ∧ vm'.stepping = vm.stepping := by
+  obtain ⟨i, _, he⟩ := step_ok h
+  exact execI_frame he
+
+/-! ### iterating the uninterrupted computation -/
+
+theorem coreIter_add (p : Program) (n k : Nat) (c : Core) :
+    coreIter p (n + k) c = (coreIter p n c).bind (coreIter p k) := by
+  induction n generalizing c with
+  | zero => simp [coreIter, Except.bind]
+  | succ n ih =>
+    rw [Nat.add_right_comm]
+    simp only [coreIter]
+    cases coreStep p c with
+    | error e => rfl
+    | ok c1 => exact ih c1
+
+theorem coreIter_one (p : Program) (c : Core) : coreIter p 1 c = coreStep p c := by
+  simp only [coreIter]
+  cases coreStep p c <;> rfl
+
+theorem coreIter_succ_end (p : Program) (n : Nat) (c : Core) :
+    coreIter p (n + 1) c = (coreIter p n c).bind (coreStep p) := by
+  rw [coreIter_add]
+  cases coreIter p n c with
+  | error e => rfl
+  | ok c1 => exact coreIter_one p c1
+
+theorem onPath_step {p : Program} {c c' : Core} (h : OnPath p c) (hs : coreStep p c = .ok c') :
+    OnPath p c' := by
+  obtain ⟨n, hn⟩ := h
+  refine ⟨n + 1, ?_⟩
+  rw [coreIter_succ_end, hn]
+  exact hs
+
+theorem onPath_init (p : Program) : OnPath p coreInit := ⟨0, rfl⟩
+
+/-- `HALT` is a fixed point of the uninterrupted computation -/
+theorem coreStep_halt {p : Program} {c : Core} (h : fetch p.code c.ip = .ok Instr.halt) :
+    coreStep p c = .ok c := by
+  rw [coreStep_eq, step_eq]
+  show ((fetch p.code c.ip).bind _).map _ = _
+  rw [h]
+  rfl
+
+theorem coreIter_halt {p : Program} {c : Core} (h : fetch p.code c.ip = .ok Instr.halt) (k : Nat) :
+    coreIter p k c = .ok c := by
+  induction k with
+  | zero => rfl
+  | succ k ih =>
+    simp only [coreIter, coreStep_halt h, Except.bind]
+    exact ih
+
+theorem halt_unique {p : Program} {n m : Nat} {c0 c1 c2 : Core}
+    (h1 : coreIter p n c0 = .ok c1) (hh1 : fetch p.code c1.ip = .ok Instr.halt)
+    (h2 : coreIter p m c0 = .ok c2) (hh2 : fetch p.code c2.ip = .ok Instr.halt) : c1 = c2 := by
+  rcases Nat.le_total n m with hle | hle
+  · obtain ⟨k, rfl⟩ := Nat.exists_eq_add_of_le hle
+    rw [coreIter_add, h1] at h2
+    have := coreIter_halt hh1 k
+    simp only [Except.bind] at h2
+    rw [this] at h2
+    cases h2; rfl
+  · obtain ⟨k, rfl⟩ := Nat.exists_eq_add_of_le hle
+    rw [coreIter_add, h2] at h1
+    have := coreIter_halt hh2 k
+    simp only [Except.bind] at h1
+    rw [this] at h1
+    cases h1; rfl
+
+theorem isDone_halt {vm : VM} (hd : vm.isDone = .ok true) : fetch vm.code vm.ip = .ok Instr.halt := by
+  unfold VM.isDone at hd
+  simp only [bind, Except.bind, pure, Except.pure] at hd
+  split at hd
+  · cases hd
+  · rename_i i hi
+    rw [hi]
+    simp at hd
+    rw [hd]
+
+/-! ### overwriting opcodes -/
+
+theorem setOp_ok {code : List Instr} {ind : Int} {x : Instr} {c : List Instr}
+    (h : setOp code ind x = .ok c) :
+    0 ≤ ind ∧ ind.toNat < code.length ∧ c = code.set ind.toNat x := by
+  unfold setOp at h
+  split at h
+  · cases h
+  · split at h
+    · cases h; exact ⟨by omega, by assumption, rfl⟩
+    · cases h
+
+theorem setOps_nil (code : List Instr) (x : Instr) : setOps code [] x = .ok code := rfl
+
+theorem setOps_cons (code : List Instr) (ind : Int) (inds : List Int) (x : Instr) :
+    setOps code (ind :: inds) x = (setOp code ind x).bind (fun c1 => setOps c1 inds x) := by
+  simp only [setOps, List.foldlM_cons]; rfl
+
+theorem setOps_spec {inds : List Int} {code : List Instr} {x : Instr} {c : List Instr}
+    (h : setOps code inds x = .ok c) :
+    c.length = code.length ∧ (∀ ind ∈ inds, 0 ≤ ind ∧ ind.toNat < code.length) ∧
+    ∀ k : Nat, c[k]? = if (k : Int) ∈ inds then some x else code[k]? := by
+  induction inds generalizing code with
+  | nil =>
+    rw [setOps_nil] at h; cases h
+    simp
+  | cons ind inds ih =>
+    rw [setOps_cons] at h
+    cases h1 : setOp code ind x with
+    | error e => rw [h1] at h; cases h
+    | ok c1 =>
+      rw [h1] at h
+      obtain ⟨h0, hlt, rfl⟩ := setOp_ok h1
+      obtain ⟨hl, hr, hk⟩ := ih h
+      rw [List.length_set] at hl hr
+      refine ⟨hl, ?_, ?_⟩
+      · intro j hj
+        rcases List.mem_cons.mp hj with rfl | hj
+        · exact ⟨h0, hlt⟩
+        · exact hr j hj
+      · intro k
+        rw [hk k, List.getElem?_set]
+        by_cases hin : (k : Int) ∈ inds
+        · simp [hin]
+        · by_cases hki : (k : Int) = ind
+          · have : ind.toNat = k := by omega
+            simp [hki, this]
+            omega
+          · have : ¬ ind.toNat = k := by omega
+            simp [hin, hki, this]
+
+theorem sitesOf_mem {p : Program} {bp : BreakPoint} {sites : List Int}
+    (h : p.sitesOf bp = some sites) : (bp, sites) ∈ p.potBreaks := by
+  unfold Program.sitesOf at h
+  cases hf : p.potBreaks.find? (fun e => e.1 = bp) with
+  | none => rw [hf] at h; cases h
+  | some e =>
+    rw [hf] at h
+    have hm := List.mem_of_find?_eq_some hf
+    have hp := List.find?_some hf
+    simp only [Option.map_some, Option.some.injEq] at h
+    simp only [decide_eq_true_eq] at hp
+    obtain ⟨a, b⟩ := e
+    simp only at h hp
+    subst h hp
+    exact hm
+
+theorem sitesOK_sites {p : Program} (hs : SitesOK p) {bp : BreakPoint} {sites : List Int}
+    (h : p.sitesOf bp = some sites) :
+    ∀ i ∈ sites, 0 ≤ i ∧ p.code[i.toNat]? = some Instr.potBreak :=
+  hs.1 (bp, sites) (sitesOf_mem h)
+
+theorem CodeInv.ops {p : Program} {code : List Instr} {inds : List Int} {x : Instr}
+    {c : List Instr} (hc : CodeInv p code) (hx : x.erase = .potBreak)
+    (hi : ∀ i ∈ inds, p.code[i.toNat]? = some Instr.potBreak)
+    (h : setOps code inds x = .ok c) : CodeInv p c := by
+  unfold CodeInv
+  apply List.ext_getElem?
+  intro k
+  rw [List.getElem?_map, (setOps_spec h).2.2 k]
+  split
+  · rename_i hin
+    have := hi _ hin
+    simp only [Int.toNat_natCast] at this
+    rw [this, Option.map_some, hx]
+  · exact (hc.get k).symm
+
+theorem CodeInv.setBP {p : Program} (hs : SitesOK p) {vm vm' : VM} {b : BreakPoint}
+    {v r : Bool} (hc : CodeInv p vm.code) (h : VM.setBreakPoint p vm b v = .ok (vm', r)) :
+    CodeInv p vm'.code := by
+  unfold VM.setBreakPoint at h
+  split at h
+  · cases h; exact hc
+  · rename_i sites hsites
+    have hi : ∀ i ∈ sites, p.code[i.toNat]? = some Instr.potBreak :=
+      fun i hi => (sitesOK_sites hs hsites i hi).2
+    simp only [bind, Except.bind, pure, Except.pure] at h
+    split at h
+    · split at h
+      · cases h
+      · rename_i c hcc
+        cases h
+        exact hc.ops rfl hi hcc
+    · split at h
+      · cases h
+      · rename_i c hcc
+        cases h
+        exact hc.ops rfl hi hcc
+
+theorem restoreAll_nil (p : Program) (code : List Instr) : restoreAll p code [] = .ok code := rfl
+
+theorem restoreAll_cons (p : Program) (code : List Instr) (bp : BreakPoint)
+    (bps : List BreakPoint) :
+    restoreAll p code (bp :: bps) =
+      (setOps code ((p.sitesOf bp).getD []) .potBreak).bind (fun c1 => restoreAll p c1 bps) := by
+  simp only [restoreAll, List.foldlM_cons]; rfl
+
+theorem sitesOK_sitesD {p : Program} (hs : SitesOK p) (bp : BreakPoint) :
+    ∀ i ∈ (p.sitesOf bp).getD [], 0 ≤ i ∧ p.code[i.toNat]? = some Instr.potBreak := by
+  cases h : p.sitesOf bp with
+  | none => intro i hi; simp at hi
+  | some sites => exact sitesOK_sites hs h
+
+theorem CodeInv.restore {p : Program} (hs : SitesOK p) {bps : List BreakPoint}
+    {code c : List Instr} (hc : CodeInv p code) (h : restoreAll p code bps = .ok c) :
+    CodeInv p c := by
+  induction bps generalizing code with
+  | nil => rw [restoreAll_nil] at h; cases h; exact hc
+  | cons bp bps ih =>
+    rw [restoreAll_cons] at h
+    cases h1 : setOps code ((p.sitesOf bp).getD []) .potBreak with
+    | error e => rw [h1] at h; cases h
+    | ok c1 =>
+      rw [h1] at h
+      exact ih (hc.ops rfl (fun i hi => (sitesOK_sitesD hs bp i hi).2) h1) h
+
+theorem clear_ok {p : Program} {vm vm' : VM} (h : VM.clearBreakpoints p vm = .ok vm') :
+    ∃ c, restoreAll p vm.code vm.enabled = .ok c ∧ vm' = { vm with code := c, enabled := [] } := by
+  unfold VM.clearBreakpoints at h
+  simp only [bind, Except.bind, pure, Except.pure] at h
+  split at h
+  · cases h
+  · rename_i c hc
+    cases h
+    exact ⟨c, hc, rfl⟩
+
+theorem reset_ok {p : Program} {vm vm' : VM} (h : VM.reset p vm = .ok vm') :
+    ∃ c, restoreAll p vm.code vm.enabled = .ok c ∧
+      vm' = { stepping := false, ip := 0, code := c, data := [], stack := [], enabled := [] } := by
+  unfold VM.reset at h
+  simp only [bind, Except.bind, pure, Except.pure] at h
+  split at h
+  · cases h
+  · rename_i vm1 h1
+    cases h
+    obtain ⟨c, hc, rfl⟩ := clear_ok h1
+    exact ⟨c, hc, rfl⟩
+
+/-- `CodeInv` along one API call -/
+theorem execTo_frame {vm vm' : VM} (h : ExecTo vm vm') :
+    vm'.code = vm.code ∧ vm'.enabled = vm.enabled ∧ vm'.stepping = vm.stepping := by
+  induction h with
+  | stop h => exact step_frame h
+  | more h _ ih =>
+    have hf := step_frame h
+    have := ih
+    exact ⟨this.1.trans hf.1, this.2.1.trans hf.2.1, this.2.2.trans hf.2.2⟩
+
+theorem CodeInv.call {p : Program} (hs : SitesOK p) {vm vm' : VM} {c : Call}
+    (hc : CodeInv p vm.code) (h : CallRel p vm c vm') : CodeInv p vm'.code := by
+  cases h with
+  | single h => rw [(step_frame h).1]; exact hc
+  | exec h => rw [(execTo_frame h).1]; exact hc
+  | bp h => exact hc.setBP hs h
+  | clear h =>
+    obtain ⟨c, h1, rfl⟩ := clear_ok h
+    exact hc.restore hs h1
+  | stepping => exact hc
+  | reset h =>
+    obtain ⟨c, h1, rfl⟩ := reset_ok h
+    exact hc.restore hs h1
+
+theorem CodeInv.reach {p : Program} (hs : SitesOK p) {vm : VM} (hr : Reach p vm) :
+    CodeInv p vm.code := by
+  induction hr with
+  | init => exact CodeInv.init p hs
+  | call _ hc ih => exact ih.call hs hc
+
+/-! ### C05 -/
+
+theorem setBP_core {p : Program} {vm vm' : VM} {b : BreakPoint} {v r : Bool}
+    (h : VM.setBreakPoint p vm b v = .ok (vm', r)) : vm'.core = vm.core := by
+  unfold VM.setBreakPoint at h
+  split at h
+  · cases h; rfl
+  · simp only [bind, Except.bind, pure, Except.pure] at h
+    split at h <;> split at h <;> cases h <;> rfl
+
+theorem execTo_onPath {p : Program} {vm vm' : VM} (hc : CodeInv p vm.code)
+    (ho : OnPath p vm.core) (h : ExecTo vm vm') : OnPath p vm'.core := by
+  induction h with
+  | stop h => exact onPath_step ho (step_core hc h)
+  | more h _ ih =>
+    exact ih (by rw [(step_frame h).1]; exact hc) (onPath_step ho (step_core hc h))
+
+theorem call_onPath {p : Program} {vm vm' : VM} {c : Call} (hc : CodeInv p vm.code)
+    (ho : OnPath p vm.core) (h : CallRel p vm c vm') : OnPath p vm'.core := by
+  cases h with
+  | single h => exact onPath_step ho (step_core hc h)
+  | exec h => exact execTo_onPath hc ho h
+  | bp h => rw [setBP_core h]; exact ho
+  | clear h =>
+    obtain ⟨c, _, rfl⟩ := clear_ok h
+    exact ho
+  | stepping => exact ho
+  | reset h =>
+    obtain ⟨c, _, rfl⟩ := reset_ok h
+    exact onPath_init p
+
+theorem reach_onPath {p : Program} (hs : SitesOK p) {vm : VM} (hr : Reach p vm) :
+    OnPath p vm.core := by
+  induction hr with
+  | init => exact onPath_init p
+  | call hr hc ih => exact call_onPath (CodeInv.reach hs hr) ih hc
+
+theorem code_only_breaks {p : Program} {code : List Instr} (hc : CodeInv p code) :
+    code.length = p.code.length ∧
+    ∀ i : Nat, code[i]? ≠ p.code[i]? →
+      p.code[i]? = some Instr.potBreak ∧ code[i]? = some Instr.brk := by
+  refine ⟨hc.length, ?_⟩
+  intro i hne
+  rw [hc.get i] at hne ⊢
+  cases hi : code[i]? with
+  | none => rw [hi] at hne; exact absurd rfl hne
+  | some x =>
+    rw [hi] at hne
+    simp only [Option.map_some] at hne ⊢
+    by_cases hx : x = .brk
+    · subst hx; exact ⟨rfl, rfl⟩
+    · rw [erase_of_ne_brk hx] at hne; exact absurd rfl hne
+
+theorem same_end {p : Program} (hs : SitesOK p) {vm : VM} (hr : Reach p vm)
+    (hd : vm.isDone = .ok true) {m : Nat} {c : Core}
+    (hc : coreIter p m coreInit = .ok c) (hh : fetch p.code c.ip = .ok Instr.halt) :
+    vm.core = c := by
+  obtain ⟨n, hn⟩ := reach_onPath hs hr
+  have hci := CodeInv.reach hs hr
+  have hv : fetch p.code vm.core.ip = .ok Instr.halt := by
+    show fetch p.code vm.ip = _
+    rw [hci.fetch_eq, isDone_halt hd]; rfl
+  exact halt_unique hn hv hc hh
+
+/-! ### the order on break points; the enabled set as a sorted list -/
+
+theorem bytesLt_irrefl (a : Bytes) : bytesLt a a = false := by
+  induction a with
+  | nil => rfl
+  | cons x xs ih => simp [bytesLt, ih, UInt8.lt_irrefl]
+
+theorem bytesLt_tri {a b : Bytes} (h1 : bytesLt a b = false) (h2 : bytesLt b a = false) : a = b := by
+  induction a generalizing b with
+  | nil => cases b with
+    | nil => rfl
+    | cons y ys => simp [bytesLt] at h1
+  | cons x xs ih => cases b with
+    | nil => simp [bytesLt] at h2
+    | cons y ys =>
+      simp only [bytesLt] at h1 h2
+      have hxy : ¬ x < y := by intro h; simp [h] at h1
+      have hyx : ¬ y < x := by intro h; simp [h] at h2
+      simp only [hxy, hyx, if_false] at h1 h2
+      have : x = y := by
+        rw [UInt8.lt_iff_toNat_lt] at hxy hyx
+        apply UInt8.toNat_inj.mp; omega
+      rw [this, ih h1 h2]
+
+theorem bytesLt_trans {a b c : Bytes} (h1 : bytesLt a b = true) (h2 : bytesLt b c = true) :
+    bytesLt a c = true := by
+  induction a generalizing b c with
+  | nil => cases b with
+    | nil => simp [bytesLt] at h1
+    | cons y ys => cases c with
+      | nil => simp [bytesLt] at h2
+      | cons z zs => rfl
+  | cons x xs ih => cases b with
+    | nil => simp [bytesLt] at h1
+    | cons y ys => cases c with
+      | nil => simp [bytesLt] at h2
+      | cons z zs =>
+        simp only [bytesLt] at h1 h2 ⊢
+        simp only [UInt8.lt_iff_toNat_lt] at h1 h2 ⊢
+        split at h1
+        · split at h2
+          · rw [if_pos (by omega)]
+          · split at h2
+            · cases h2
+            · rw [if_pos (by omega)]
+        · split at h1
+          · cases h1
+          · split at h2
+            · rw [if_pos (by omega)]
+            · split at h2
+              · cases h2
+              · rw [if_neg (by omega), if_neg (by omega)]
+                exact ih h1 h2
+
+theorem bpLt_irrefl (a : BreakPoint) : BreakPoint.lt a a = false := by
+  simp [BreakPoint.lt, bytesLt_irrefl]
+
+theorem bpLt_tri {a b : BreakPoint} (h1 : BreakPoint.lt a b = false)
+    (h2 : BreakPoint.lt b a = false) : a = b := by
+  unfold BreakPoint.lt at h1 h2
+  cases hab : bytesLt a.file b.file <;> cases hba : bytesLt b.file a.file <;>
+    simp [hab, hba] at h1 h2
+  have hf := bytesLt_tri hab hba
+  cases a; cases b
+  simp only at hf h1 h2
+  subst hf
+  congr
+  omega
+
+theorem bpLt_trans {a b c : BreakPoint} (h1 : BreakPoint.lt a b = true)
+    (h2 : BreakPoint.lt b c = true) : BreakPoint.lt a c = true := by
+  unfold BreakPoint.lt at h1 h2 ⊢
+  cases hab : bytesLt a.file b.file <;> cases hba : bytesLt b.file a.file <;>
+    cases hbc : bytesLt b.file c.file <;> cases hcb : bytesLt c.file b.file <;>
+    simp [hab, hba, hbc, hcb] at h1 h2
+  · -- a.file = b.file = c.file
+    have e1 := bytesLt_tri hab hba
+    have e2 := bytesLt_tri hbc hcb
+    rw [e1, e2, bytesLt_irrefl]
+    simp; omega
+  · have e1 := bytesLt_tri hab hba
+    rw [e1, hbc]; simp
+  · have e1 := bytesLt_tri hab hba
+    rw [e1, hbc]; simp
+  · have e2 := bytesLt_tri hbc hcb
+    rw [← e2, hab]; simp
+  · rw [bytesLt_trans hab hbc]; simp
+  · rw [bytesLt_trans hab hbc]; simp
+  · have e2 := bytesLt_tri hbc hcb
+    rw [← e2, hab]; simp
+  · rw [bytesLt_trans hab hbc]; simp
+  · rw [bytesLt_trans hab hbc]; simp
+
+/-- the enabled set is strictly sorted (it is a `std::set`) -/
+def Sorted (l : List BreakPoint) : Prop := l.Pairwise (fun a b => BreakPoint.lt a b = true)
+
+theorem mem_insert {x b : BreakPoint} {l : List BreakPoint} :
+    x ∈ sortedInsert BreakPoint.lt false b l ↔ x = b ∨ x ∈ l := by
+  induction l with
+  | nil => simp [sortedInsert]
+  | cons y ys ih =>
+    unfold sortedInsert
+    split
+    · simp
+    · split
+      · simp only [List.mem_cons, ih]
+        constructor
+        · rintro (h | h | h)
+          · exact .inr (.inl h)
+          · exact .inl h
+          · exact .inr (.inr h)
+        · rintro (h | h | h)
+          · exact .inr (.inl h)
+          · exact .inl h
+          · exact .inr (.inr h)
+      · rename_i h1 h2
+        have : b = y := bpLt_tri (by simpa using h1) (by simpa using h2)
+        subst this
+        simp
+
+theorem sorted_insert {b : BreakPoint} {l : List BreakPoint} (hl : Sorted l) :
+    Sorted (sortedInsert BreakPoint.lt false b l) := by
+  unfold Sorted at *
+  induction l with
+  | nil => simp [sortedInsert]
+  | cons y ys ih =>
+    rw [List.pairwise_cons] at hl
+    unfold sortedInsert
+    split
+    · rename_i h1
+      rw [List.pairwise_cons]
+      refine ⟨?_, List.pairwise_cons.mpr hl⟩
+      intro z hz
+      rcases List.mem_cons.mp hz with rfl | hz
+      · exact h1
+      · exact bpLt_trans h1 (hl.1 z hz)
+    · split
+      · rename_i h1 h2
+        rw [List.pairwise_cons]
+        refine ⟨?_, ih hl.2⟩
+        intro z hz
+        rcases mem_insert.mp hz with rfl | hz
+        · exact h2
+        · exact hl.1 z hz
+      · exact List.pairwise_cons.mpr hl
+
+theorem erase_sublist (b : BreakPoint) (l : List BreakPoint) :
+    (sortedErase BreakPoint.lt b l).Sublist l := by
+  induction l with
+  | nil => exact List.Sublist.refl _
+  | cons y ys ih =>
+    unfold sortedErase
+    split
+    · exact ih.cons_cons y
+    · exact List.sublist_cons_self y ys
+
+theorem sorted_erase {b : BreakPoint} {l : List BreakPoint} (hl : Sorted l) :
+    Sorted (sortedErase BreakPoint.lt b l) :=
+  List.Pairwise.sublist (erase_sublist b l) hl
+
+theorem mem_erase {x b : BreakPoint} {l : List BreakPoint} (hl : Sorted l) :
+    x ∈ sortedErase BreakPoint.lt b l ↔ x ∈ l ∧ x ≠ b := by
+  unfold Sorted at hl
+  induction l with
+  | nil => simp [sortedErase]
+  | cons y ys ih =>
+    rw [List.pairwise_cons] at hl
+    unfold sortedErase
+    split
+    · rename_i h1
+      have hne : y ≠ b := by
+        rintro rfl
+        simp [bpLt_irrefl] at h1
+      simp only [List.mem_cons, ih hl.2]
+      constructor
+      · rintro (rfl | h)
+        · exact ⟨.inl rfl, hne⟩
+        · exact ⟨.inr h.1, h.2⟩
+      · rintro ⟨rfl | h, h2⟩
+        · exact .inl rfl
+        · exact .inr ⟨h, h2⟩
+    · rename_i h1
+      simp only [Bool.or_eq_true, not_or, Bool.not_eq_true] at h1
+      have : b = y := bpLt_tri h1.1 h1.2
+      subst this
+      have hnb : b ∉ ys := by
+        intro hb
+        have := hl.1 b hb
+        rw [bpLt_irrefl] at this
+        cases this
+      simp only [List.mem_cons]
+      constructor
+      · intro h
+        exact ⟨.inr h, fun e => hnb (e ▸ h)⟩
+      · rintro ⟨rfl | h, h2⟩
+        · exact absurd rfl h2
+        · exact h
+
+
+/-! ### C06: `BREAK` sits exactly at the sites of enabled lines -/
+
+structure BreakInv (p : Program) (code : List Instr) (enabled : List BreakPoint) : Prop where
+  brk : ∀ k : Nat, code[k]? = some Instr.brk ↔ ∃ bp, p.lineAt (k : Int) = some bp ∧ bp ∈ enabled
+  sorted : Sorted enabled
+
+theorem sites_iff {p : Program} (ht : TablesInverse p) {b : BreakPoint} {sites : List Int}
+    (h : p.sitesOf b = some sites) (i : Int) : i ∈ sites ↔ p.lineAt i = some b := by
+  rw [← ht.1 b i]
+  constructor
+  · intro hi; exact ⟨sites, h, hi⟩
+  · rintro ⟨s', h', hi⟩
+    rw [h] at h'; cases h'; exact hi
+
+theorem sitesD_iff {p : Program} (ht : TablesInverse p) (b : BreakPoint) (i : Int) :
+    i ∈ (p.sitesOf b).getD [] ↔ p.lineAt i = some b := by
+  cases h : p.sitesOf b with
+  | some sites => exact sites_iff ht h i
+  | none =>
+    rw [← ht.1 b i]
+    simp [h]
+
+theorem BreakInv.init (p : Program) (hs : SitesOK p) : BreakInv p p.code [] := by
+  refine ⟨?_, List.Pairwise.nil⟩
+  intro k
+  constructor
+  · intro h
+    exact absurd (List.mem_of_getElem? h) hs.2
+  · rintro ⟨bp, _, h⟩
+    cases h
+
+theorem setOps_brk_iff {inds : List Int} {code c : List Instr} {x : Instr}
+    (h : setOps code inds x = .ok c) (k : Nat) :
+    c[k]? = some Instr.brk ↔
+      ((k : Int) ∈ inds ∧ x = .brk) ∨ ((k : Int) ∉ inds ∧ code[k]? = some Instr.brk) := by
+  rw [(setOps_spec h).2.2 k]
+  by_cases hin : (k : Int) ∈ inds <;> simp [hin]
+
+theorem BreakInv.enable {p : Program} (ht : TablesInverse p) {code c : List Instr}
+    {en : List BreakPoint} {b : BreakPoint} {sites : List Int} (hb : BreakInv p code en)
+    (hsites : p.sitesOf b = some sites) (h : setOps code sites .brk = .ok c) :
+    BreakInv p c (sortedInsert BreakPoint.lt false b en) := by
+  refine ⟨?_, sorted_insert hb.sorted⟩
+  intro k
+  rw [setOps_brk_iff h k, sites_iff ht hsites, hb.brk k]
+  simp only [mem_insert, and_true]
+  constructor
+  · rintro (h1 | ⟨_, bp, h2, h3⟩)
+    · exact ⟨b, h1, .inl rfl⟩
+    · exact ⟨bp, h2, .inr h3⟩
+  · rintro ⟨bp, h1, rfl | h2⟩
+    · exact .inl h1
+    · by_cases hk : p.lineAt (k : Int) = some b
+      · exact .inl hk
+      · exact .inr ⟨hk, bp, h1, h2⟩
+
+theorem BreakInv.disable {p : Program} (ht : TablesInverse p) {code c : List Instr}
+    {en : List BreakPoint} {b : BreakPoint} (hb : BreakInv p code en)
+    (h : setOps code ((p.sitesOf b).getD []) .potBreak = .ok c) :
+    BreakInv p c (sortedErase BreakPoint.lt b en) := by
+  refine ⟨?_, sorted_erase hb.sorted⟩
+  intro k
+  rw [setOps_brk_iff h k, sitesD_iff ht, hb.brk k]
+  simp only [mem_erase hb.sorted]
+  constructor
+  · rintro (⟨_, h1⟩ | ⟨h1, bp, h2, h3⟩)
+    · cases h1
+    · refine ⟨bp, h2, h3, ?_⟩
+      rintro rfl
+      exact h1 h2
+  · rintro ⟨bp, h1, h2, h3⟩
+    refine .inr ⟨?_, bp, h1, h2⟩
+    intro h4
+    rw [h1] at h4
+    cases h4
+    exact h3 rfl
+
+theorem BreakInv.setBP {p : Program} (ht : TablesInverse p) {vm vm' : VM} {b : BreakPoint}
+    {v r : Bool} (hb : BreakInv p vm.code vm.enabled)
+    (h : VM.setBreakPoint p vm b v = .ok (vm', r)) : BreakInv p vm'.code vm'.enabled := by
+  unfold VM.setBreakPoint at h
+  split at h
+  · cases h; exact hb
+  · rename_i sites hsites
+    simp only [bind, Except.bind, pure, Except.pure] at h
+    split at h
+    · split at h
+      · cases h
+      · rename_i c hcc
+        cases h
+        exact hb.enable ht hsites hcc
+    · split at h
+      · cases h
+      · rename_i c hcc
+        cases h
+        refine hb.disable ht ?_
+        rw [hsites]; exact hcc
+
+theorem restoreAll_brk {p : Program} {bps : List BreakPoint} {code c : List Instr}
+    (h : restoreAll p code bps = .ok c) (k : Nat) :
+    c[k]? = some Instr.brk →
+      code[k]? = some Instr.brk ∧ ∀ bp ∈ bps, (k : Int) ∉ (p.sitesOf bp).getD [] := by
+  induction bps generalizing code with
+  | nil => rw [restoreAll_nil] at h; cases h; intro hk; exact ⟨hk, fun _ hbp => by cases hbp⟩
+  | cons bp bps ih =>
+    rw [restoreAll_cons] at h
+    cases h1 : setOps code ((p.sitesOf bp).getD []) .potBreak with
+    | error e => rw [h1] at h; cases h
+    | ok c1 =>
+      rw [h1] at h
+      intro hk
+      obtain ⟨hk1, hrest⟩ := ih h hk
+      rcases (setOps_brk_iff h1 k).mp hk1 with ⟨_, h2⟩ | ⟨h2, h3⟩
+      · cases h2
+      · refine ⟨h3, ?_⟩
+        intro bp' hbp'
+        rcases List.mem_cons.mp hbp' with rfl | hbp'
+        · exact h2
+        · exact hrest bp' hbp'
+
+theorem BreakInv.restore {p : Program} (ht : TablesInverse p) {code c : List Instr}
+    {en : List BreakPoint} (hb : BreakInv p code en) (h : restoreAll p code en = .ok c) :
+    BreakInv p c [] := by
+  refine ⟨?_, List.Pairwise.nil⟩
+  intro k
+  constructor
+  · intro hk
+    obtain ⟨h1, h2⟩ := restoreAll_brk h k hk
+    obtain ⟨bp, h3, h4⟩ := (hb.brk k).mp h1
+    exact absurd ((sitesD_iff ht bp _).mpr h3) (h2 bp h4)
+  · rintro ⟨bp, _, h⟩
+    cases h
+
+theorem BreakInv.call {p : Program} (ht : TablesInverse p) {vm vm' : VM} {c : Call}
+    (hb : BreakInv p vm.code vm.enabled) (h : CallRel p vm c vm') :
+    BreakInv p vm'.code vm'.enabled := by
+  cases h with
+  | single h => rw [(step_frame h).1, (step_frame h).2.1]; exact hb
+  | exec h => rw [(execTo_frame h).1, (execTo_frame h).2.1]; exact hb
+  | bp h => exact hb.setBP ht h
+  | clear h =>
+    obtain ⟨c, h1, rfl⟩ := clear_ok h
+    exact hb.restore ht h1
+  | stepping => exact hb
+  | reset h =>
+    obtain ⟨c, h1, rfl⟩ := reset_ok h
+    exact hb.restore ht h1
+
+theorem BreakInv.reach {p : Program} (hs : SitesOK p) (ht : TablesInverse p) {vm : VM}
+    (hr : Reach p vm) : BreakInv p vm.code vm.enabled := by
+  induction hr with
+  | init => exact BreakInv.init p hs
+  | call _ hc ih => exact ih.call ht hc
+
+/-! ### C06: stop positions -/
+
+/-- should the machine stop after executing the instruction at `ip`? (`StopHere` of C06) -/
+def StopAt (p : Program) (stepping : Bool) (enabled : List BreakPoint) (ip : Int) : Prop :=
+  fetch p.code ip = .ok Instr.halt ∨
+  ∃ bp, p.lineAt ip = some bp ∧ (stepping = true ∨ bp ∈ enabled)
+
+theorem stops_iff {p : Program} (ht : TablesInverse p) {vm vm' : VM} {r : Bool}
+    (hc : CodeInv p vm.code) (hb : BreakInv p vm.code vm.enabled)
+    (h : step vm = .ok (vm', r)) : r = true ↔ StopAt p vm.stepping vm.enabled vm.ip := by
+  obtain ⟨i, hf, he⟩ := step_ok h
+  obtain ⟨h0, hg⟩ := fetch_ok hf
+  rw [execI_flag he]
+  have hpf : fetch p.code vm.ip = .ok i.erase := by rw [hc.fetch_eq, hf]; rfl
+  have hpg : p.code[vm.ip.toNat]? = some i.erase := by rw [hc.get, hg]; rfl
+  have hcast : ((vm.ip.toNat : Nat) : Int) = vm.ip := Int.toNat_of_nonneg h0
+  have hline : (∃ bp, p.lineAt vm.ip = some bp) ↔ i.erase = .potBreak := by
+    have := ht.2.1 vm.ip.toNat
+    rw [hcast, hpg] at this
+    rw [this]
+    constructor
+    · intro h; exact Option.some.inj h
+    · intro h; rw [h]
+  have hbrk : i = .brk ↔ ∃ bp, p.lineAt vm.ip = some bp ∧ bp ∈ vm.enabled := by
+    have := hb.brk vm.ip.toNat
+    rw [hcast, hg] at this
+    rw [← this]
+    constructor
+    · intro h; rw [h]
+    · intro h; cases h; rfl
+  unfold StopAt
+  constructor
+  · rintro (rfl | rfl | ⟨rfl, hst⟩)
+    · exact .inl hpf
+    · obtain ⟨bp, h1, h2⟩ := hbrk.mp rfl
+      exact .inr ⟨bp, h1, .inr h2⟩
+    · obtain ⟨bp, h1⟩ := hline.mpr rfl
+      exact .inr ⟨bp, h1, .inl hst⟩
+  · rintro (hh | ⟨bp, h1, hst | hen⟩)
+    · rw [hpf] at hh
+      exact .inl (erase_eq_halt.mp (Except.ok.inj hh))
+    · rcases erase_eq_potBreak.mp (hline.mp ⟨bp, h1⟩) with hi | hi
+      · exact .inr (.inl hi)
+      · exact .inr (.inr ⟨hi, hst⟩)
+    · exact .inr (.inl (hbrk.mpr ⟨bp, h1, hen⟩))
+
+theorem execute_stops {p : Program} (ht : TablesInverse p) {vm vm' : VM}
+    (hc : CodeInv p vm.code) (hb : BreakInv p vm.code vm.enabled) (h : ExecTo vm vm') :
+    ∃ k : Nat, ∃ c : Core,
+      coreIter p k vm.core = .ok c ∧ StopAt p vm.stepping vm.enabled c.ip ∧
+      (∀ j, j < k → ∀ cj, coreIter p j vm.core = .ok cj →
+        ¬ StopAt p vm.stepping vm.enabled cj.ip) ∧
+      coreStep p c = .ok vm'.core ∧
+      vm'.code = vm.code ∧ vm'.enabled = vm.enabled ∧ vm'.stepping = vm.stepping := by
+  induction h with
+  | stop h =>
+    refine ⟨0, _, rfl, (stops_iff ht hc hb h).mp rfl, ?_, step_core hc h, step_frame h⟩
+    intro j hj
+    omega
+  | @more vm vm1 vm2 h _ ih =>
+    obtain ⟨f1, f2, f3⟩ := step_frame h
+    obtain ⟨k, c, i1, i2, i3, i4, i5, i6, i7⟩ :=
+      ih (by rw [f1]; exact hc) (by rw [f1, f2]; exact hb)
+    rw [f2, f3] at i2 i3
+    have hcs := step_core hc h
+    refine ⟨k + 1, c, ?_, i2, ?_, i4, i5.trans f1, i6.trans f2, i7.trans f3⟩
+    · simp only [coreIter, hcs, Except.bind]
+      exact i1
+    · intro j hj cj hcj
+      cases j with
+      | zero =>
+        cases hcj
+        intro hst
+        have := (stops_iff ht hc hb h).mpr hst
+        cases this
+      | succ j =>
+        simp only [coreIter, hcs, Except.bind] at hcj
+        exact i3 j (by omega) cj hcj
+
+theorem current_break {p : Program} {vm vm' : VM} (h : step vm = .ok (vm', true))
+    (hn : fetch vm.code vm.ip ≠ .ok Instr.halt) :
+    vm'.currentBreak p = p.lineAt vm.ip := by
+  obtain ⟨i, hf, he⟩ := step_ok h
+  have hfl := (execI_flag he).mp rfl
+  have hip : vm'.ip = vm.ip + 1 := by
+    rcases hfl with rfl | rfl | ⟨rfl, _⟩
+    · exact absurd hf hn
+    · simp only [execI, pure, Except.pure, Except.ok.injEq, Prod.mk.injEq] at he
+      rw [← he.1]
+    · simp only [execI, pure, Except.pure, Except.ok.injEq, Prod.mk.injEq] at he
+      rw [← he.1]
+  unfold VM.currentBreak
+  rw [hip, Int.add_sub_cancel]
+
+theorem initial_none {p : Program} (ht : TablesInverse p) :
+    (VM.mk' p).currentBreak p = none := by
+  unfold VM.currentBreak
+  cases h : p.lineAt ((VM.mk' p).ip - 1) with
+  | none => rfl
+  | some bp =>
+    have := ht.2.2 _ _ h
+    simp [VM.mk'] at this
+
+theorem sitesOf_none_iff (p : Program) (b : BreakPoint) :
+    p.sitesOf b = none ↔ b ∉ p.available := by
+  unfold Program.sitesOf Program.available
+  simp only [Option.map_eq_none_iff, List.find?_eq_none, decide_eq_true_eq, List.mem_map,
+    not_exists, not_and]
+
+theorem enable_iff {p : Program} {vm vm' : VM} {b : BreakPoint} {v r : Bool}
+    (h : VM.setBreakPoint p vm b v = .ok (vm', r)) : r = true ↔ b ∈ p.available := by
+  unfold VM.setBreakPoint at h
+  split at h
+  · rename_i hnone
+    cases h
+    have := (sitesOf_none_iff p b).mp hnone
+    simp [this]
+  · rename_i sites hsites
+    have hav : b ∈ p.available := by
+      apply Classical.byContradiction
+      intro hna
+      rw [(sitesOf_none_iff p b).mpr hna] at hsites
+      cases hsites
+    simp only [bind, Except.bind, pure, Except.pure] at h
+    split at h <;> split at h <;> cases h <;> simp [hav]
+
+theorem setBP_enabled {p : Program} {vm vm' : VM} {b : BreakPoint} {v r : Bool}
+    (h : VM.setBreakPoint p vm b v = .ok (vm', r)) :
+    vm'.enabled = bookkeeping p vm.enabled (.bp b v) := by
+  unfold VM.setBreakPoint at h
+  split at h
+  · rename_i hnone
+    cases h
+    cases v <;> simp [bookkeeping, hnone]
+  · rename_i sites hsites
+    simp only [bind, Except.bind, pure, Except.pure] at h
+    split at h <;> split at h <;> cases h <;> simp_all [bookkeeping]
+
+theorem enabled_set {p : Program} {vm vm' : VM} {c : Call} (h : CallRel p vm c vm') :
+    vm'.enabled = bookkeeping p vm.enabled c := by
+  cases h with
+  | single h => exact (step_frame h).2.1
+  | exec h => exact (execTo_frame h).2.1
+  | bp h => exact setBP_enabled h
+  | clear h =>
+    obtain ⟨c, _, rfl⟩ := clear_ok h
+    rfl
+  | stepping => rfl
+  | reset h =>
+    obtain ⟨c, _, rfl⟩ := reset_ok h
+    rfl
+
+end InvB
 end Theo
